@@ -458,8 +458,9 @@ def check_edge(acc, pid, task, func, state, new_state, label, cfg, keys=None):
 
 def shard_edges(arg):
     """arg = (pid, taskname, which, tier, phase, lo, hi, kinds): every state x every edge generator of the listed
-    kinds (Task.edges[kind] = dict(apply=fn(state)->[(label,new_state)], funcs=[names]|None, keys=[...]|None,
-    cfgs=[...]|None))."""
+    kinds (Task.edges[kind] = spec or list of specs; spec = dict(apply=fn(state)->[(label,new_state)],
+    funcs=[names]|None, keys=[...]|None, cfgs=[...]|"all"|None, ok=fn(state, fname), okc=fn(state, new_state, fname,
+    cfg)))."""
     pid, taskname, which, tier, phase, lo, hi, kinds = arg
     task = base.load(taskname)
     acc = core.Acc(pid)
@@ -469,25 +470,34 @@ def shard_edges(arg):
         acc.states += 1
         nt = False
         for kind in kinds:
-            spec = edges.get(kind)
-            if not spec:
+            specs = edges.get(kind)
+            if not specs:
                 continue
-            for label, new_state in spec["apply"](state):
-                if new_state == state:
-                    continue
-                nt = True
-                acc.counters["edges:%s" % kind] += 1
-                for func in task.funcs:
-                    if spec.get("funcs") is not None and func.name not in spec["funcs"]:
+            for spec in (specs if isinstance(specs, list) else [specs]):
+                for label, new_state in spec["apply"](state):
+                    if new_state == state:
                         continue
-                    if spec.get("ok") is not None and not spec["ok"](state, func.name):
-                        acc.counters["edges_outside_precondition:%s" % kind] += 1
-                        continue
-                    for cfg in (spec.get("cfgs") or [{}]):
-                        acc.tick(lambda: dict(case_of(task, func, state, cfg), edge=label, ref2=new_state[0],
-                                              est2=new_state[1]))
-                        check_edge(acc, pid, task, func, state, new_state, "%s:%s" % (kind, label), cfg,
-                                   spec.get("keys"))
+                    nt = True
+                    acc.counters["edges:%s" % kind] += 1
+                    for func in task.funcs:
+                        if spec.get("funcs") is not None and func.name not in spec["funcs"]:
+                            continue
+                        if spec.get("ok") is not None and not spec["ok"](state, func.name):
+                            acc.counters["edges_outside_precondition:%s" % kind] += 1
+                            continue
+                        cfgs = spec.get("cfgs") or [{}]
+                        if cfgs == "all":     # the documented defaults and every single non-default parameter value
+                            cfgs = func.configs("quick")
+                        for cfg in cfgs:
+                            if spec.get("okc") is not None and not spec["okc"](state, new_state, func.name, cfg):
+                                acc.counters["edges_outside_precondition:%s" % kind] += 1
+                                continue
+                            if cfg:
+                                acc.counters["edges_nondefault_cfg:%s" % kind] += 1
+                            acc.tick(lambda: dict(case_of(task, func, state, cfg), edge=label, ref2=new_state[0],
+                                                  est2=new_state[1]))
+                            check_edge(acc, pid, task, func, state, new_state, "%s:%s" % (kind, label), cfg,
+                                       spec.get("keys"))
         if nt:
             acc.nontrivial += 1
     if lo == 0 and sp:
